@@ -240,4 +240,11 @@ def job(args):
 def finalize(sm, rep, tier, results):
     rep.floor('off-diagonal sign obligations', sum(1 for o in rep.obs if o['rule'] == 'M1'), 150)
     rep.floor('ghost-elimination obligations', sum(1 for o in rep.obs if o['rule'] == 'M3'), 60)
+    # positive control: the sign domain must call a cell size positive, its negative negative and a difference of two
+    # unrelated sizes undecided
+    wc = World(sm, 'Grid1D')
+    f = lambda i: Rat.atom(('f', 'x', wc.t[0] + i))
+    rep.control('sign domain: size > 0, -size < 0, size - other size undecided',
+                wc.weak_sign_of(f(1) - f(0)) in ('+', '+0') and wc.weak_sign_of(f(0) - f(1)) in ('-', '-0') and wc.weak_sign_of((f(1) - f(0)) - (f(3) - f(2))) not in ('+', '-', '+0', '-0', '0'),
+                f"{wc.weak_sign_of(f(1) - f(0))} {wc.weak_sign_of(f(0) - f(1))} {wc.weak_sign_of((f(1) - f(0)) - (f(3) - f(2)))}")
     rep.samples.append(dict(rule='M1', example='convectionUpwindTerm1D: AE = min(u_e,0)/dx: case u_e>0 -> 0 ; u_e<0 -> u_e/dx < 0 ; u_e==0 -> 0'))
